@@ -422,4 +422,51 @@ namespaces the callers pass (`x`, `a`) are named -/
 def wellformedTerms (is : List Inter) : Bool :=
   (strTerms is).all (fun t => !t.isEmpty && t.all (fun c => c == 'x' || c == 'a'))
 
+/-! ## Argument shapes of the entry points (`features=` / `reward_features=`) -/
+
+/-- what a caller may pass as the term argument -/
+inductive Shape
+  | str (t : List Char)
+  | list (ts : List Inter)
+  | tuple (ts : List Inter)
+  deriving DecidableEq
+
+/-- how an entry point treats the argument before handing it on (extracted from the source) -/
+inductive Norm
+  | asIs      -- passed on unchanged
+  | wrapStr   -- `if isinstance(p,str): p = [p]`
+  | listOf    -- `list(p)`
+  | tupleOf   -- `tuple(p)`
+  deriving DecidableEq
+
+/-- iterating a Python str yields its characters -/
+def charsOf (t : List Char) : List Inter := t.map (fun c => Inter.term [c])
+
+def Norm.step : Norm → Shape → Shape
+  | .asIs, s => s
+  | .wrapStr, .str t => .list [.term t]
+  | .wrapStr, s => s
+  | .listOf, .str t => .list (charsOf t)
+  | .listOf, .list ts => .list ts
+  | .listOf, .tuple ts => .list ts
+  | .tupleOf, .str t => .tuple (charsOf t)
+  | .tupleOf, .list ts => .tuple ts
+  | .tupleOf, .tuple ts => .tuple ts
+
+/-- what `InteractionsEncoder(p)` sees when it iterates its argument -/
+def Shape.iterate : Shape → List Inter
+  | .str t => charsOf t
+  | .list ts => ts
+  | .tuple ts => ts
+
+/-- the term list the caller means: a bare str is ONE term -/
+def Shape.meaning : Shape → List Inter
+  | .str t => [.term t]
+  | .list ts => ts
+  | .tuple ts => ts
+
+/-- the entry points' treatments in call order, then the encoder's iteration -/
+def normalise (ns : List Norm) (s : Shape) : List Inter :=
+  (ns.foldl (fun s n => n.step s) s).iterate
+
 end Coba.C20
